@@ -411,7 +411,7 @@ class Terms:
                 elif isinstance(v, ast.FormattedValue):
                     spec = T(v.format_spec) if v.format_spec is not None else None
                     parts.append(("fmt", T(v.value), v.conversion, spec))
-            return ("fstr", tuple(parts))
+            return _fstr(tuple(parts))
         if isinstance(e, ast.IfExp):
             return ("ifexp", T(e.test), T(e.body), T(e.orelse))
         if isinstance(e, ast.Await):
@@ -434,7 +434,7 @@ class Terms:
                 elt = ("tuple", (self._t(cfg, nid, e.key, env2, depth, guard), self._t(cfg, nid, e.value, env2, depth, guard)))
             else:
                 elt = self._t(cfg, nid, e.elt, env2, depth, guard)
-            return ("comp", type(e).__name__, elt, tuple(gens))
+            return _fuse_comp(("comp", type(e).__name__, elt, tuple(gens)))
         if isinstance(e, ast.Lambda):
             env2 = dict(env)
             params = [a.arg for a in e.args.posonlyargs + e.args.args + e.args.kwonlyargs]
@@ -465,8 +465,22 @@ class Terms:
         f = cfg.func
         T = lambda x: self._t(cfg, nid, x, env, depth, guard)  # noqa: E731
         args = tuple(T(a) for a in e.args)
+        # f(*(a, b, c)) is f(a, b, c): a starred display (directly or through a local) is its elements
+        if any(a[0] == "star" and a[1][0] in ("tuple", "list") and not any(x[0] == "star" for x in a[1][1]) for a in args):
+            flat = []
+            for a in args:
+                if a[0] == "star" and a[1][0] in ("tuple", "list") and not any(x[0] == "star" for x in a[1][1]):
+                    flat.extend(a[1][1])
+                else:
+                    flat.append(a)
+            args = tuple(flat)
         kwargs = tuple((k.arg, T(k.value)) for k in e.keywords)
         fn = T(e.func)
+        # "..{}..".format(a) is the f-string f"..{a}.." (plain fields only); a conditional template is a conditional result
+        if fn[0] == "attr" and fn[2] == "format" and not any(a[0] == "star" for a in args) and not any(k is None for k, _v in kwargs):
+            ft = _format_term(fn[1], args, dict(kwargs))
+            if ft is not None:
+                return ft
         # identity wrappers and codec round-trips
         if fn[0] == "glob" and fn[1] in IDENTITY_WRAPPERS and len(args) == 1 and not kwargs:
             a0 = args[0]
@@ -482,6 +496,9 @@ class Terms:
                 return inner[1][1]
             if inner[0] == "const" and fn[2] == "encode" and isinstance(inner[1], str) and not args:
                 return ("const", inner[1].encode())
+        # struct.pack(<constant format>, a..) is Struct(<format>).pack(a..): ONE spelling of a struct packer
+        if fn == ("glob", "struct.pack") and args and args[0][0] == "const" and isinstance(args[0][1], str) and not kwargs and not any(a[0] == "star" for a in args):
+            fn, args = ("const", StructMethod(StructConst(args[0][1]), "pack")), args[1:]
         # constant folding of calls on constants
         if fn[0] == "const":
             v = fn[1]
@@ -625,6 +642,7 @@ def _binop(op, l, r) -> tuple:
                 except Exception:
                     pass
             out.append(x)
+        out = _merge_zero_pack(out)
         if len(out) == 1:
             return out[0]
         return ("add", tuple(out))
@@ -646,10 +664,309 @@ def _binop(op, l, r) -> tuple:
     return ("binop", name, l, r)
 
 
+def _fstr(parts: tuple) -> tuple:
+    """f-string term in one spelling: a plainly formatted part that is itself an f-string is spliced in
+    (f"a{f'b{x}c'}d" = f"ab{x}cd"), adjacent literal parts are joined, and ONE part with several definitions makes several
+    f-strings (f"Host: {φ(f'[{h}]' | h)}" = φ(f"Host: [{h}]" | f"Host: {h}")) - the order of the alternatives is kept."""
+    def plain(p):
+        return p[0] == "fmt" and p[2] == -1 and p[3] is None
+
+    phis = [i for i, p in enumerate(parts) if plain(p) and p[1][0] == "phi"]
+    if len(phis) == 1 and len(parts[phis[0]][1][1]) <= 4:
+        i = phis[0]
+        return ("phi", tuple(_fstr(parts[:i] + (("fmt", alt, -1, None),) + parts[i + 1:]) for alt in parts[i][1][1]))
+    flat = []
+    for p in parts:
+        if plain(p) and p[1][0] == "fstr":
+            flat.extend(p[1][1])
+        elif plain(p) and p[1][0] == "const" and isinstance(p[1][1], str):
+            flat.append(("const", p[1][1]))
+        else:
+            flat.append(p)
+    out = []
+    for p in flat:
+        if out and out[-1][0] == "const" and p[0] == "const":
+            out[-1] = ("const", out[-1][1] + p[1])
+        elif p == ("const", ""):
+            continue
+        else:
+            out.append(p)
+    return ("fstr", tuple(out))
+
+
+def _fuse_comp(t):
+    """A comprehension over an unfiltered comprehension / generator expression is one comprehension: the outer target is
+    bound to the inner element (`[f(c, v) for c, v in ((g(k), v) for k, v in d.items())]` = `[f(g(k), v) for k, v in d.items()]`)."""
+    if len(t[3]) != 1:
+        return t
+    tgt, it, conds = t[3][0]
+    if not (it[0] == "comp" and it[1] in ("ListComp", "GeneratorExp") and len(it[3]) == 1 and not it[3][0][2]):
+        return t
+    m: dict = {}
+    if not _bind_target(tgt, it[2], m):
+        return t
+    outer_names = {s_[1] for s_ in _walk_tuples(tgt) if len(s_) == 2 and s_[0] == "cvar"}
+    if outer_names - set(m):
+        return t
+    return ("comp", t[1], _subst_cvars(t[2], m), ((it[3][0][0], it[3][0][1], tuple(_subst_cvars(c, m) for c in conds)),))
+
+
+def _walk_tuples(t):
+    if isinstance(t, tuple):
+        yield t
+        for x in t:
+            yield from _walk_tuples(x)
+
+
+def comp_as_loop(t):
+    """single-generator comprehension -> (element, conditions, iterable) with the loop variable written the way a `for`
+    statement's is: ('iter', iterable), its unpacked parts ('sub', ('iter', iterable), i).  None for other terms."""
+    if not (t[0] == "comp" and len(t[3]) == 1):
+        return None
+    tgt, it, conds = t[3][0]
+    item = ("iter", it)
+    m: dict = {}
+    if tgt[0] == "cvar":
+        m[tgt[1]] = item
+    elif tgt[0] in ("tuple", "list") and all(x[0] == "cvar" for x in tgt[1]):
+        for i, x in enumerate(tgt[1]):
+            m[x[1]] = ("sub", item, ("const", i))
+    else:
+        return None
+    return _subst_cvars(t[2], m), tuple(_subst_cvars(c, m) for c in conds), it
+
+
+def _format_term(tmpl, args, kwargs):
+    """<template>.format(args) as an ('fstr', parts) term, or None when the template is not a constant with plain fields"""
+    if tmpl[0] == "ifexp":
+        a, b = _format_term(tmpl[2], args, kwargs), _format_term(tmpl[3], args, kwargs)
+        return ("ifexp", tmpl[1], a, b) if a is not None and b is not None else None
+    if tmpl[0] == "phi":
+        alts = [_format_term(x, args, kwargs) for x in tmpl[1]]
+        return ("phi", tuple(alts)) if all(x is not None for x in alts) else None
+    if not (tmpl[0] == "const" and isinstance(tmpl[1], str)):
+        return None
+    import string
+
+    parts, auto = [], 0
+    try:
+        parsed = list(string.Formatter().parse(tmpl[1]))
+    except ValueError:
+        return None
+    for lit, field, spec, conv in parsed:
+        if lit:
+            parts.append(("const", lit))
+        if field is None:
+            continue
+        if spec or conv:
+            return None
+        if field == "":
+            if auto is None or auto >= len(args):
+                return None
+            v, auto = args[auto], auto + 1
+        elif field.isdigit():
+            if auto or int(field) >= len(args):
+                return None
+            auto = None
+            v = args[int(field)]
+        elif field.isidentifier() and field in kwargs:
+            v = kwargs[field]
+        else:
+            return None
+        parts.append(("fmt", v, -1, None))
+    return _fstr(tuple(parts))
+
+
+_ZERO_FIELD = {1: "B", 2: "H", 4: "L", 8: "Q"}
+
+
+def _merge_zero_pack(parts: list) -> list:
+    """1/2/4/8 constant zero bytes next to `Struct(<explicit byte order>...).pack(..)` are one more zero-valued field of that
+    pack: b"\0\0\0\0" + Struct("<Q").pack(c) is read as Struct("<LQ").pack(0, c) - ONE spelling of "zero bytes, then the
+    counter", the same one the pad-code canonicalisation produces."""
+
+    def is_pack(t):
+        return (t[0] == "call" and t[1][0] == "const" and isinstance(t[1][1], StructMethod) and t[1][1].method == "pack" and not t[3]
+                and t[1][1].struct.fmt[:1] in ("<", ">", "!", "=") and "x" not in t[1][1].struct.fmt)
+
+    def zeros(t):
+        if t[0] == "const" and isinstance(t[1], (bytes, bytearray)) and len(t[1]) in _ZERO_FIELD and not any(t[1]):
+            return len(t[1])
+        return None
+
+    out = list(parts)
+    i = 0
+    while i + 1 < len(out):
+        a, b = out[i], out[i + 1]
+        za, zb = zeros(a), zeros(b)
+        if za is not None and is_pack(b):
+            fmt = b[1][1].struct.fmt
+            out[i : i + 2] = [("call", ("const", StructMethod(StructConst(fmt[0] + _ZERO_FIELD[za] + fmt[1:]), "pack")), (("const", 0),) + tuple(b[2]), ()) + tuple(b[4:])]
+            continue
+        if zb is not None and is_pack(a):
+            fmt = a[1][1].struct.fmt
+            out[i : i + 2] = [("call", ("const", StructMethod(StructConst(fmt + _ZERO_FIELD[zb]), "pack")), tuple(a[2]) + (("const", 0),), ()) + tuple(a[4:])]
+            continue
+        if is_pack(a) and is_pack(b) and a[1][1].struct.fmt[0] == b[1][1].struct.fmt[0] and not any(x[0] == "star" for x in a[2] + b[2]):
+            # two packs of the same byte order side by side are one pack of all the fields
+            fa, fb = a[1][1].struct.fmt, b[1][1].struct.fmt
+            out[i : i + 2] = [("call", ("const", StructMethod(StructConst(fa + fb[1:]), "pack")), tuple(a[2]) + tuple(b[2]), ()) + tuple(a[4:])]
+            continue
+        i += 1
+    return out
+
+
+_STRUCT_SIZES = {"b": 1, "B": 1, "h": 2, "H": 2, "i": 4, "I": 4, "l": 4, "L": 4, "q": 8, "Q": 8, "?": 1, "x": 1}
+
+
+def _struct_layout(fmt: str):
+    """[(offset, size, code)] of the value-producing fields of a standard-size format (explicit byte order) or None"""
+    import re
+
+    if fmt[:1] not in ("<", ">", "!", "="):
+        return None
+    order = "little" if fmt[0] == "<" else "big" if fmt[0] in (">", "!") else None
+    if order is None:
+        return None
+    out, off = [], 0
+    for cnt, code in re.findall(r"(\d*)([a-zA-Z?])", fmt[1:]):
+        if code not in _STRUCT_SIZES:
+            return None
+        for _ in range(int(cnt) if cnt else 1):
+            if code != "x":
+                out.append((off, _STRUCT_SIZES[code], code))
+            off += _STRUCT_SIZES[code]
+    return order, out
+
+
+def byte_field(t):
+    """A term that reads an integer out of a byte string -> (base, offset, size, byte order, signed) or None.
+
+    One reading for the spellings of "the unsigned little-endian 16 bits at offset 9":
+        Struct("<HHBB").unpack(b[9:15])[0]      Struct("<HHBB").unpack_from(b, 9)[0]      int.from_bytes(b[9:11], "little")
+    and for a single byte ``b[13]`` (byte order "any").  Offsets and sizes must be constants."""
+    t = strip_sites(t)
+    if t[0] == "sub" and len(t) == 3 and t[2][0] == "const" and isinstance(t[2][1], int) and t[1][0] == "call" and not t[1][3] \
+            and t[1][1][0] == "const" and isinstance(t[1][1][1], StructMethod) and t[1][1][1].method in ("unpack", "unpack_from"):
+        sm, args, i = t[1][1][1], t[1][2], t[2][1]
+        lay = _struct_layout(sm.struct.fmt)
+        if lay is None or not 0 <= i < len(lay[1]) or not args:
+            return None
+        order, fields = lay
+        off, size, code = fields[i]
+        base, start = args[0], 0
+        if sm.method == "unpack":
+            if len(args) != 1:
+                return None
+            if base[0] == "sub" and len(base) == 3 and base[2][0] == "slice" and base[2][3] is None:
+                lo = base[2][1]
+                if lo is not None and not (lo[0] == "const" and isinstance(lo[1], int) and lo[1] >= 0):
+                    return None
+                base, start = base[1], (lo[1] if lo is not None else 0)
+        else:
+            if len(args) == 2:
+                if not (args[1][0] == "const" and isinstance(args[1][1], int) and args[1][1] >= 0):
+                    return None
+                start = args[1][1]
+            elif len(args) != 1:
+                return None
+        return base, start + off, size, (order if size > 1 else "any"), code.islower() and code != "?"
+    if t[0] == "call" and t[1] in (("glob", "int.from_bytes"), ("attr", ("glob", "int"), "from_bytes")) and t[2]:
+        kw = dict(t[3])
+        order = t[2][1] if len(t[2]) >= 2 else kw.get("byteorder", ("const", "big"))
+        signed = kw.get("signed", ("const", False))
+        src = t[2][0]
+        if order[0] != "const" or signed[0] != "const" or len(t[2]) > 2:
+            return None
+        if src[0] == "sub" and len(src) == 3 and src[2][0] == "slice" and src[2][3] is None:
+            lo, hi = src[2][1], src[2][2]
+            lo_v = 0 if lo is None else lo[1] if lo[0] == "const" and isinstance(lo[1], int) else None
+            hi_v = hi[1] if hi is not None and hi[0] == "const" and isinstance(hi[1], int) else None
+            if lo_v is None or hi_v is None or lo_v < 0 or hi_v <= lo_v:
+                return None
+            size = hi_v - lo_v
+            return src[1], lo_v, size, (order[1] if size > 1 else "any"), bool(signed[1])
+        return None
+    if t[0] == "sub" and len(t) == 3 and t[2][0] == "const" and isinstance(t[2][1], int) and not isinstance(t[2][1], bool) and t[2][1] >= 0:
+        return t[1], t[2][1], 1, "any", False
+    return None
+
+
+def fold_term(t):
+    """Python value of a term built only from constants, `+`, constant struct packers and int.to_bytes; NotConst otherwise."""
+    if t[0] == "const":
+        return t[1]
+    if t[0] == "add":
+        vals = [fold_term(x) for x in t[1]]
+        acc = vals[0]
+        for v in vals[1:]:
+            acc = acc + v
+        return acc
+    if t[0] == "call" and not t[3]:
+        fn = t[1]
+        if fn[0] == "const" and isinstance(fn[1], StructMethod) and fn[1].method == "pack":
+            import struct
+
+            return struct.pack(fn[1].struct.fmt, *[fold_term(a) for a in t[2]])
+        if fn[0] == "attr" and fn[2] == "to_bytes" and len(t[2]) == 2:
+            v, n, bo = fold_term(fn[1]), fold_term(t[2][0]), fold_term(t[2][1])
+            if isinstance(v, int) and isinstance(n, int) and bo in ("little", "big"):
+                return v.to_bytes(n, bo)
+        if fn[0] == "glob" and fn[1] in ("bytes", "bytearray") and len(t[2]) == 1:
+            return bytes(fold_term(t[2][0]))
+    raise NotConst(str(t)[:80])
+
+
+def _subst_cvars(t, m: dict):
+    if not isinstance(t, tuple):
+        return t
+    if len(t) == 2 and t[0] == "cvar" and t[1] in m:
+        return m[t[1]]
+    return tuple(_subst_cvars(x, m) for x in t)
+
+
+def _bind_target(tgt, row, m: dict) -> bool:
+    """match a comprehension target term against one element of what it iterates over"""
+    if tgt[0] == "cvar":
+        m[tgt[1]] = row
+        return True
+    if tgt[0] in ("tuple", "list"):
+        if row[0] in ("tuple", "list") and len(row[1]) == len(tgt[1]) and not any(x[0] == "star" for x in row[1] + tgt[1]):
+            return all(_bind_target(a, b, m) for a, b in zip(tgt[1], row[1]))
+        if row[0] == "const" and isinstance(row[1], (tuple, list)) and len(row[1]) == len(tgt[1]):
+            return all(_bind_target(a, _const(b), m) for a, b in zip(tgt[1], row[1]))
+    return False
+
+
+def _comp_element(base, i: int):
+    """element ``i`` of an unfiltered list comprehension / generator over a display or constant of known length"""
+    if not (base[0] == "comp" and base[1] in ("ListComp", "GeneratorExp") and len(base[3]) == 1):
+        return None
+    tgt, it, conds = base[3][0]
+    if conds:
+        return None
+    if it[0] in ("tuple", "list") and not any(x[0] == "star" for x in it[1]):
+        rows = list(it[1])
+    elif it[0] == "const" and isinstance(it[1], (tuple, list)):
+        rows = [_const(x) for x in it[1]]
+    else:
+        return None
+    if not -len(rows) <= i < len(rows):
+        return None
+    m: dict = {}
+    if not _bind_target(tgt, rows[i], m):
+        return None
+    return _subst_cvars(base[2], m)
+
+
 def _sub(base, idx) -> tuple:
     if base[0] in ("tuple", "list") and idx[0] == "const" and isinstance(idx[1], int):
         if not any(x[0] == "star" for x in base[1]) and -len(base[1]) <= idx[1] < len(base[1]):
             return base[1][idx[1]]
+    if base[0] == "comp" and idx[0] == "const" and isinstance(idx[1], int):
+        el = _comp_element(base, idx[1])
+        if el is not None:
+            return el
     if base[0] == "const" and idx[0] == "const":
         try:
             return _const(base[1][idx[1]])
